@@ -133,7 +133,9 @@ class Position(NamedTuple):
     def line_of(self) -> str:
         """Return the line of text that contains this position."""
         line_number, _ = self.line_col()
-        return self.text[line_number - 1]
+        lines = self.text.splitlines(keepends=True)
+        # The position after a trailing newline is on an empty line.
+        return lines[line_number - 1] if line_number <= len(lines) else ""
 
 
 class Pair:
